@@ -179,8 +179,18 @@ func (st *Stack) reloadOnce(names []string, reuseOpen bool) error {
 	// success. Swap.
 	st.stack = newTables
 	opened = nil
+	listed := make(map[string]struct{}, len(names))
+	for _, nm := range names {
+		listed[nm] = struct{}{}
+	}
 	for _, old := range cur {
 		old.Close()
+
+		if _, ok := listed[old.Name()]; ok {
+			// Reopened under the same name (reuseOpen == false):
+			// the file belongs to the new stack.
+			continue
+		}
 
 		// On windows, we may only be able to close after
 		// closing file handles.
